@@ -31,6 +31,7 @@ TOOLS = {
     "hlslrun": ("Extract/HlslRunExtract.v", "model", GENERIC),
     "spvrun": ("Extract/SpvRunExtract.v", "model", GENERIC),
     "parsemodel": ("Extract/ParseExtract.v", "model", GENERIC),
+    "wgslcheck": ("Extract/WgslCheckExtract.v", "model", GENERIC),
     "cfshape": ("Extract/CfShapeExtract.v", "model", GENERIC),
 }
 
